@@ -2,6 +2,7 @@ package main
 
 import (
 	"fmt"
+	"html"
 	"go/parser"
 	"strings"
 )
@@ -105,6 +106,57 @@ func propC10(c *ctx) error {
 		h := r.pick(harmless)
 		if err := checkParse(r.pick([]string{"", " ", "\n", "/* c */ "})+src+h, true, "well-formed expression with insignificant white space / comments rejected"); err != nil {
 			return err
+		}
+	}
+	// ---- directive values written WITHOUT quotes (also with quote characters inside): rejected at load, or — should
+	// an engine accept them — interpreted in full: never cut at an inner quote, never with an unterminated block swallowed
+	{
+		pieces := []string{"${a}", "b", "\"", "'", "tail", "${b", "v", "${a}${a}", "=", "${'q'}"}
+		un := c.n(150, 4000)
+		for i := 0; i < un; i++ {
+			var val, want strings.Builder
+			broken := false
+			for k := 1 + r.n(4); k > 0; k-- {
+				pc := r.pick(pieces)
+				val.WriteString(pc)
+				switch pc {
+				case "${a}":
+					want.WriteString("1")
+				case "${a}${a}":
+					want.WriteString("11")
+				case "${'q'}":
+					want.WriteString("q")
+				case "${b":
+					broken = true
+				default:
+					want.WriteString(pc)
+				}
+			}
+			v := val.String()
+			if strings.HasPrefix(v, "\"") || strings.HasPrefix(v, "'") {
+				continue // would be a quoted value
+			}
+			k := []string{"text", "title", "raw"}[r.n(3)]
+			tsrc := "<p :" + k + "=" + v + ">x</p>"
+			rc := &renderCase{Files: [][2]string{{"t", tsrc}}, Tpl: "t", Data: vMap(kv{"a", vInt(1)}).j}
+			out, _, err := compareRender(c, rc, true)
+			if err != nil {
+				return err
+			}
+			res.eval("unq|"+tsrc, true, J{"tpl": tsrc})
+			res.S3Checked++
+			res.count("unquoted_directive_values")
+			if out.Load != "ok" {
+				continue // rejected at load: fine
+			}
+			full := html.EscapeString(want.String())
+			if k == "raw" {
+				full = want.String()
+			}
+			if broken || out.St != "ok" || !strings.Contains(out.text(), full) {
+				res.violate(rc.toJ(), "load error, or the whole value interpreted: "+full, J{"st": out.St, "out": out.text()},
+					"an unquoted directive value is accepted but not interpreted in full (cut at a quote / unterminated block swallowed)")
+			}
 		}
 	}
 	// ---- directive values: truncations
